@@ -20,7 +20,15 @@ const NS: [Option<i32>; 7] = [Some(1), Some(2), Some(3), Some(7), Some(16), Some
 
 pub fn check_ring(id: u64, c: &Cell, nsel: u8, closed: bool, label: &str, st: &mut Stats) -> Result<(), String> {
     // nsel < 7: the named values; otherwise any n in 1..=64
-    let n = if (nsel as usize) < NS.len() { NS[nsel as usize] } else { Some(1 + (nsel as i32 - NS.len() as i32) % 64) };
+    // nsel >= 71: subdivisions well beyond 64 (the statement says every n >= 1), incl. the byte and power-of-two borders
+    const LARGE: [i32; 20] = [65, 96, 100, 127, 128, 129, 200, 255, 256, 257, 300, 511, 512, 513, 777, 1000, 1024, 1025, 2048, 4096];
+    let n = if (nsel as usize) < NS.len() {
+        NS[nsel as usize]
+    } else if nsel < 71 {
+        Some(1 + (nsel as i32 - NS.len() as i32) % 64)
+    } else {
+        Some(LARGE[(nsel as usize - 71) % LARGE.len()])
+    };
     let corners = if c.res == 1 { 3usize } else { 5usize };
     let ring = api::boundary_lonlat(id, n, closed).map_err(|e| format!("cell_to_boundary({:#x}) failed: {}", id, e))?;
     let extra = if closed { 1 } else { 0 };
@@ -114,7 +122,7 @@ pub fn check_ring(id: u64, c: &Cell, nsel: u8, closed: bool, label: &str, st: &m
     } else if near_pole {
         st.hit("within-3-cell-sizes-of-pole");
     }
-    st.hit(&format!("n:{}", match n { None => "default".to_string(), Some(k) if [1, 2, 3, 7, 16, 64].contains(&k) && (nsel as usize) < NS.len() => k.to_string(), Some(_) => "other(1..64)".to_string() }));
+    st.hit(&format!("n:{}", match n { None => "default".to_string(), Some(k) if [1, 2, 3, 7, 16, 64].contains(&k) && (nsel as usize) < NS.len() => k.to_string(), Some(k) if k > 64 => "large(65..4096)".to_string(), Some(_) => "other(1..64)".to_string() }));
     st.hit(&format!("res:{:02}", c.res));
     st.hit(&format!("chosen-by:{}", label));
     st.sample(nt, || json!({"cell": gen::cell_json(c), "n": n, "closed": closed, "points": ring.len(), "lon_window": [lo, hi], "touches_pole": touches_pole, "first_points": ring.iter().take(3).collect::<Vec<_>>()}));
@@ -128,7 +136,7 @@ pub fn run(tier: Tier, seed: u64) -> Report {
         "rings",
         seed,
         tier.pick(40_000, 1_000_000),
-        || (picks(0, 29, 5), prop_oneof![2 => 0u8..7, 1 => 7u8..71], any::<bool>()).boxed(),
+        || (picks(0, 29, 5), prop_oneof![20 => 0u8..7, 10 => 7u8..71, 1 => 71u8..91], any::<bool>()).boxed(),
         |(p, nsel, closed), st| {
             let (id, c, label) = p.resolve()?;
             check_ring(id, &c, *nsel, *closed, label, st)
